@@ -68,7 +68,8 @@ func vBool(b bool) val          { return val{K: "bool", I: b2i(b)} }
 func vSpan(d time.Duration) val { return val{K: "timespan", I: int64(d)} }
 func vArray(a ...val) val       { return val{K: "array", A: append([]val{}, a...)} }
 func vTime(t time.Time) val {
-	if t.IsZero() {
+	if t.IsZero() && t.Location() == time.UTC {
+		// the zero value of time.Time; the same instant in another zone is described like any other time (its text differs)
 		return val{K: "datetime", Z: "zero"}
 	}
 	z := "utc"
